@@ -17,6 +17,8 @@ def run(ctx):
     _execlib.run_exec(ctx, "C02")
     # real operators: MatMul with constant weights (chained, inside If branches, shared with a transposed
     # use), prepacking on/off x optimisation on/off x thread pools, judged against integer products in TLA+
+    # and MatMulInteger with a constant i8 weight packed at load time, before the scalar / per-column zero
+    # points are known (mmint family)
     t = ctx.path("prepack.ndjson")
     ncases = 160 if ctx.quick else 4000
     ctx.harness("vh-graph", ["exec-prepack", "--cases", ncases, "--out", t])
@@ -26,5 +28,5 @@ def run(ctx):
     ctx.cov["evaluations"] += res["stats"].get("runs", 0)
     ctx.finish(rule="case = one TLC-generated graph executed 9 times under the strategy matrix; evaluations = runs; distinct_nontrivial = distinct graphs with >= 1 in-place capable operator",
                assumptions=["synthetic mixer operators (harness-defined through the rten::verif hook) stand in for real operators: injective-enough integer mixing, a real in-place path, pool allocation",
-                            "prepacking / subgraph weight caches / thread pools are varied on real MatMul models (integer-valued data); the order of ready operators is not varied (the plan is a sequence; C03 checks plans)"],
+                            "prepacking / subgraph weight caches / thread pools are varied on real MatMul and MatMulInteger models (integer-valued data, zero points); the order of ready operators is not varied (the plan is a sequence; C03 checks plans)"],
                exhaustive=not ctx.quick)
